@@ -215,10 +215,10 @@ class AssignmentAnalysis(Generic[VId], ForwardAnalysis[AssignmentDomain[VId]]):
         return self._include_unreachable
 
     def join(self, *ts: AssignmentDomain[VId]) -> AssignmentDomain[VId]:
-        # We always include the variables that are definitely assigned before the entry,
-        # even if the join is empty
+        # We always include the variables that are definitely (maybe) assigned before the
+        # entry, even if the join is empty
         if len(ts) == 0:
-            return self.ass_before_entry, self.ass_before_entry
+            return self.ass_before_entry, self.maybe_ass_before_entry
 
         def_ass = set.intersection(*(def_ass for def_ass, _ in ts))
         maybe_ass = set.union(*(maybe_ass for _, maybe_ass in ts))
